@@ -634,3 +634,561 @@ def add_model_ops(cat, Op):  # noqa: C901
         return out
 
     add("model:C13:conversions", _conversions, [f"exponax.stepper.generic.{n_}" for n_ in gen.__all__ if n_[0].islower()], "misc", cost=1)
+
+
+def add_model_ops_2(cat, Op):  # noqa: C901
+    """Second batch: forcing (C12), invariants (C09-C11), derivatives (C07), utilities (C04, C05, C15, C16, C17), ICs (C18)."""
+    import equinox as eqx
+    import jax
+    import jax.numpy as jnp
+
+    import exponax as ex
+    from workload import _field
+
+    def add(key, fn, exports, group, cost=2, atomic=False):
+        cat.add(Op(key, fn, tuple(exports), group, cost=cost, atomic=atomic))
+
+    def grid_np(d, L, n):
+        return np.stack(np.meshgrid(*[np.arange(n) * (L / n) for _ in range(d)], indexing="ij"))
+
+    # ------------------------------------------------------------------ C12: laminar Kolmogorov solution from rest
+    # From rest the flow stays a unidirectional shear, the convection vanishes identically, and every mode obeys
+    # u' = sigma u + f with constant f, which every ETDRK order integrates exactly: u(n dt) = f (exp(sigma n dt) - 1) / sigma.
+    for L, n, k, gamma, order in ((2 * math.pi, 16, 2, 1.0, 2), (3.0, 16, 2, 0.7, 2), (3.0, 15, 3, 1.0, 4), (1.0, 16, 1, 1.5, 1), (3.0, 16, 3, 1.0, 3)):
+
+        def _lam2(pool, L=L, n=n, k=k, gamma=gamma, order=order):
+            nu, lam, dt, steps = 0.05, -0.1, 0.1, 3
+            s = ex.stepper.KolmogorovFlowVorticity(2, L, n, dt, diffusivity=nu, drag=lam, injection_mode=k, injection_scale=gamma, order=order)
+            got = ex.repeat(s, steps)(jnp.zeros((1, n, n)))
+            kappa = k * 2 * math.pi / L
+            sigma = lam - nu * kappa**2
+            x1 = grid_np(2, L, n)[1]
+            want = (-kappa * gamma * np.cos(kappa * x1) * (math.exp(sigma * steps * dt) - 1.0) / sigma)[None]
+            agree(got, want, f"2D Kolmogorov vorticity from rest (L={L:.3g}, N={n}, k={k}, gamma={gamma}, order={order}) vs laminar solution with forcing -k(2pi/L) gamma cos(k(2pi/L) x1)", 20)
+            return got
+
+        add(f"model:C12:laminar-vorticity[L={L:.3g},N={n},k={k},gamma={gamma},order={order}]", _lam2, ["exponax.stepper.KolmogorovFlowVorticity"], "forcing2", cost=3)
+
+    for L, n, k, gamma, order in ((2 * math.pi, 8, 1, 1.0, 2), (3.0, 8, 2, 0.7, 2), (3.0, 9, 2, 1.0, 4)):
+
+        def _lam3(pool, L=L, n=n, k=k, gamma=gamma, order=order):
+            nu, lam, dt, steps = 0.05, -0.1, 0.1, 3
+            s = ex.stepper.KolmogorovFlowVelocity(3, L, n, dt, diffusivity=nu, drag=lam, injection_mode=k, injection_scale=gamma, order=order)
+            got = ex.repeat(s, steps)(jnp.zeros((3, n, n, n)))
+            kappa = k * 2 * math.pi / L
+            sigma = lam - nu * kappa**2
+            x1 = grid_np(3, L, n)[1]
+            want = np.zeros((3, n, n, n))
+            want[0] = gamma * np.sin(kappa * x1) * (math.exp(sigma * steps * dt) - 1.0) / sigma
+            agree(got, want, f"3D Kolmogorov velocity from rest (L={L:.3g}, N={n}, k={k}, gamma={gamma}, order={order}) vs laminar solution with forcing gamma sin(k(2pi/L) x1) on channel 0", 20)
+            return got
+
+        add(f"model:C12:laminar-velocity[L={L:.3g},N={n},k={k},gamma={gamma},order={order}]", _lam3, ["exponax.stepper.KolmogorovFlowVelocity"], "forcing3", cost=4)
+
+    # ------------------------------------------------------------------ C09: conservation along histories of steps
+    def mean_of(u, d):
+        return np.asarray(jnp.mean(u, axis=tuple(range(1, d + 1))), dtype=np.float64)
+
+    conservative = [
+        ("Advection", lambda d, n, o: ex.stepper.Advection(d, _L, n, _DT), (1, 2, 3)),
+        ("Diffusion", lambda d, n, o: ex.stepper.Diffusion(d, _L, n, _DT), (1, 2)),
+        ("Dispersion", lambda d, n, o: ex.stepper.Dispersion(d, _L, n, _DT), (1, 2)),
+        ("HyperDiffusion", lambda d, n, o: ex.stepper.HyperDiffusion(d, _L, n, _DT), (1, 2)),
+        ("Burgers-conservative", lambda d, n, o: ex.stepper.Burgers(d, _L, n, _DT, conservative=True, order=o), (1, 2)),
+        ("Burgers-1d", lambda d, n, o: ex.stepper.Burgers(1, _L, n, _DT, order=o), (1,)),
+        ("Burgers-single-channel", lambda d, n, o: ex.stepper.Burgers(d, _L, n, _DT, single_channel=True, conservative=True, order=o), (2,)),
+        ("KdV-1d", lambda d, n, o: ex.stepper.KortewegDeVries(1, _L, n, _DT, order=o), (1,)),
+        ("KS-conservative-1d", lambda d, n, o: ex.stepper.KuramotoSivashinskyConservative(1, _L, n, _DT, order=o), (1,)),
+        ("CahnHilliard", lambda d, n, o: ex.stepper.reaction.CahnHilliard(d, _L, n, 0.001, order=o), (1, 2)),
+        ("NavierStokesVorticity", lambda d, n, o: ex.stepper.NavierStokesVorticity(2, _L, n, _DT, order=o), (2,)),
+        ("NavierStokesVelocity", lambda d, n, o: ex.stepper.NavierStokesVelocity(3, _L, n, _DT, order=o), (3,)),
+    ]
+    sizes = {1: (16, 15, 12), 2: (8, 9, 12), 3: (6,)}
+    for cname, mk, dims in conservative:
+        for d in dims:
+            for n in sizes[d]:
+                for order in ((2,) if cname in ("Advection", "Diffusion", "Dispersion", "HyperDiffusion") or d == 3 else (1, 2, 4)):
+
+                    def _mean(pool, mk=mk, d=d, n=n, order=order, cname=cname):
+                        s = mk(d, n, order)
+                        u = _field(s.num_channels, d, n) * 0.5
+                        if d == 3 and s.num_channels == 3:
+                            # the velocity formulation conserves momentum for the states it is meant for: solenoidal ones
+                            u = ex.spectral.make_incompressible(u)
+                        m0 = mean_of(u, d)
+                        for i in range(4):
+                            u = s(u)
+                            scale = float(jnp.max(jnp.abs(u))) + 1e-30
+                            agree(mean_of(u, d), m0, f"{cname} D={d} N={n} order={order}: spatial mean after step {i + 1} vs initial mean", 10, absolute=10 * _tol() * scale)
+                        return u
+
+                    add(f"model:C09:mean[{cname},D={d},N={n},order={order}]", _mean, ["exponax.stepper"], f"conserve{d}", cost=3 if d == 3 else 2)
+
+    def _no_work(pool, d, n, conservative_form):
+        nf = ex.nonlin_fun
+        dop = ex.spectral.build_derivative_operator(d, _L, n)
+        out = []
+        if d == 1:
+            f = nf.ConvectionNonlinearFun(1, n, derivative_operator=dop, dealiasing_fraction=2 / 3, conservative=conservative_form)
+            uh = ex.fft(_field(1, 1, n), num_spatial_dims=1) * f.dealiasing_mask
+            u = ex.ifft(uh, num_spatial_dims=1, num_points=n)
+            N = ex.ifft(f(uh), num_spatial_dims=1, num_points=n)
+            work = float(jnp.sum(u * N))
+            ref = float(jnp.sqrt(jnp.sum(u * u) * jnp.sum(N * N))) + 1e-30
+            if abs(work) > 50 * _tol() * ref:
+                raise ModelMismatch(f"1D convection (conservative={conservative_form}), N={n}: work <u, N(u)> / (|u||N|) = {work / ref:.3e} on a band-truncated state, expected 0")
+            out.append(N)
+        else:
+            f = nf.VorticityConvection2d(2, n, derivative_operator=dop, dealiasing_fraction=2 / 3)
+            wh = ex.fft(_field(1, 2, n), num_spatial_dims=2) * f.dealiasing_mask
+            wh = wh.at[(0,) * 3].set(0.0)
+            w = ex.ifft(wh, num_spatial_dims=2, num_points=n)
+            N = ex.ifft(f(wh), num_spatial_dims=2, num_points=n)
+            psi = ex.poisson.Poisson(2, _L, n)(w)  # Laplace(psi) = -w
+            for name, a in (("enstrophy", w), ("energy", psi)):
+                work = float(jnp.sum(a * N))
+                ref = float(jnp.sqrt(jnp.sum(a * a) * jnp.sum(N * N))) + 1e-30
+                if abs(work) > 50 * _tol() * ref:
+                    raise ModelMismatch(f"2D vorticity convection, N={n}: {name} production / norm = {work / ref:.3e} on a band-truncated state, expected 0")
+            out.append(N)
+        return out
+
+    for n in (12, 15, 16, 18, 24):
+        for cf in (False, True):
+            add(f"model:C09:no-work[D=1,N={n},conservative={cf}]", lambda pool, n=n, cf=cf: _no_work(pool, 1, n, cf), ["exponax.nonlin_fun.ConvectionNonlinearFun"], "conserve1", cost=1)
+    for n in (8, 9, 12):
+        add(f"model:C09:no-work[D=2,N={n}]", lambda pool, n=n: _no_work(pool, 2, n, None), ["exponax.nonlin_fun.VorticityConvection2d"], "conserve2", cost=2)
+
+    def _equilibria(pool):
+        out = []
+        for name, s, c in (
+            ("Burgers", ex.stepper.Burgers(1, _L, 16, _DT), 0.7),
+            ("KdV", ex.stepper.KortewegDeVries(1, _L, 15, _DT), -0.4),
+            ("FisherKPP u=1", ex.stepper.reaction.FisherKPP(1, _L, 16, _DT), 1.0),
+            ("FisherKPP u=0", ex.stepper.reaction.FisherKPP(1, _L, 16, _DT), 0.0),
+            ("AllenCahn u=1", ex.stepper.reaction.AllenCahn(1, _L, 16, 0.001), 1.0),
+            ("Burgers2d", ex.stepper.Burgers(2, _L, 8, _DT), 0.3),
+        ):
+            u = jnp.full((s.num_channels,) + (s.num_points,) * s.num_spatial_dims, c)
+            v = ex.repeat(s, 3)(u)
+            agree(v, u, f"{name}: a spatially constant equilibrium ({c}) is a fixed point", 20, absolute=20 * _tol())
+            out.append(v)
+        return out
+
+    add("model:C09:constant-equilibria", _equilibria, ["exponax.stepper"], "conserve1", cost=3)
+
+    # ------------------------------------------------------------------ C10: incompressibility
+    def _div_hat(uh, d, n, L):
+        dop = ex.spectral.build_derivative_operator(d, L, n)
+        return jnp.sum(dop * uh, axis=0)
+
+    def _incompressible(pool, d, n):
+        nf = ex.nonlin_fun
+        dop = ex.spectral.build_derivative_operator(d, _L, n)
+        v = bl_field(d, d, n) * np.asarray([1.0, -0.6, 0.8][:d]).reshape((d,) + (1,) * d)
+        vh = ex.fft(v, num_spatial_dims=d)
+        scale = float(jnp.max(jnp.abs(vh))) * float(jnp.max(jnp.abs(dop)))
+        p = ex.spectral.make_incompressible(v)
+        ph = ex.fft(p, num_spatial_dims=d)
+        ler = nf.Leray(d, n, derivative_operator=dop)
+        lh = ler(vh)
+        agree(_div_hat(ph, d, n, _L), jnp.zeros_like(ph[0]), "spectral divergence of make_incompressible(v)", 1, absolute=50 * _tol() * scale)
+        agree(_div_hat(lh, d, n, _L), jnp.zeros_like(ph[0]), "spectral divergence of Leray(v)", 1, absolute=50 * _tol() * scale)
+        agree(ex.ifft(lh, num_spatial_dims=d, num_points=n), p, "Leray projection vs make_incompressible", 20)
+        agree(ex.spectral.make_incompressible(p), p, "make_incompressible is idempotent", 20)
+        agree(ler(lh), lh, "Leray is idempotent", 20)
+        return p
+
+    for d, n in ((2, 8), (2, 9), (3, 6), (3, 5)):
+        add(f"model:C10:projection[D={d},N={n}]", lambda pool, d=d, n=n: _incompressible(pool, d, n), ["exponax.spectral", "exponax.nonlin_fun.Leray"], f"incompressible{d}", cost=2)
+
+    for cls_name, n, order in (("NavierStokesVelocity", 6, 2), ("NavierStokesVelocity", 5, 4), ("KolmogorovFlowVelocity", 6, 2), ("KolmogorovFlowVelocity", 5, 1)):
+
+        def _ns_div(pool, cls_name=cls_name, n=n, order=order):
+            kw = {"injection_mode": 1} if "Kolmogorov" in cls_name else {}
+            s = getattr(ex.stepper, cls_name)(3, _L, n, _DT, order=order, **kw)
+            u = ex.spectral.make_incompressible(bl_field(3, 3, n) * np.asarray([1.0, -0.6, 0.8]).reshape(3, 1, 1, 1))
+            dop = ex.spectral.build_derivative_operator(3, _L, n)
+            for i in range(3):
+                u = s(u)
+                uh = ex.fft(u, num_spatial_dims=3)
+                scale = float(jnp.max(jnp.abs(uh))) * float(jnp.max(jnp.abs(dop))) + 1e-30
+                agree(jnp.sum(dop * uh, axis=0), jnp.zeros_like(uh[0]), f"{cls_name} N={n} order={order}: spectral divergence after step {i + 1}", 1, absolute=100 * _tol() * scale)
+            return u
+
+        add(f"model:C10:stepper-keeps-divergence-free[{cls_name},N={n},order={order}]", _ns_div, [f"exponax.stepper.{cls_name}"], "incompressible3", cost=4)
+
+    # ------------------------------------------------------------------ C11: no amplification
+    lin11 = [
+        ("Advection", lambda d, n, dt: ex.stepper.Advection(d, _L, n, dt), True),
+        ("Diffusion", lambda d, n, dt: ex.stepper.Diffusion(d, _L, n, dt), False),
+        ("AdvectionDiffusion", lambda d, n, dt: ex.stepper.AdvectionDiffusion(d, _L, n, dt), False),
+        ("Dispersion", lambda d, n, dt: ex.stepper.Dispersion(d, _L, n, dt), True),
+        ("HyperDiffusion", lambda d, n, dt: ex.stepper.HyperDiffusion(d, _L, n, dt), False),
+        ("GeneralLinear", lambda d, n, dt: ex.stepper.generic.GeneralLinearStepper(d, _L, n, dt, linear_coefficients=(0.0, -0.3, 0.02, 0.5, -0.001)), False),
+        # symmetric positive definite diffusion tensors with strong off-diagonal correlation (0.9): still dissipative
+        ("Diffusion-full-matrix", lambda d, n, dt: ex.stepper.Diffusion(d, _L, n, dt, diffusivity=jnp.asarray(np.asarray([[0.05, 0.045, 0.0], [0.045, 0.05, 0.0], [0.0, 0.0, 0.03]])[:d, :d])), False),
+        ("AdvectionDiffusion-full-matrix", lambda d, n, dt: ex.stepper.AdvectionDiffusion(d, _L, n, dt, velocity=jnp.asarray([0.7, -0.4, 1.3][:d]), diffusivity=jnp.asarray(np.asarray([[0.05, -0.045, 0.0], [-0.045, 0.05, 0.01], [0.0, 0.01, 0.03]])[:d, :d])), False),
+    ]
+    for lname, mk, unitary in lin11:
+        for d, n in ((1, 16), (1, 15), (2, 8), (2, 9), (3, 6)):
+            if "full-matrix" in lname and d == 1:
+                continue
+
+            def _norm(pool, mk=mk, d=d, n=n, unitary=unitary, lname=lname):
+                out = []
+                for dt in (_DT, 3.0, 400.0):
+                    s = mk(d, n, dt)
+                    u = _field(1, d, n)  # broadband, Nyquist content included
+                    n0 = float(jnp.sqrt(jnp.sum(u.astype(jnp.float64 if jax.config.jax_enable_x64 else jnp.float32) ** 2)))
+                    for i in range(3):
+                        v = s(u)
+                        n1 = float(jnp.sqrt(jnp.sum(v * v)))
+                        if not np.isfinite(n1) or n1 > n0 * (1 + 20 * _tol()):
+                            raise ModelMismatch(f"{lname} D={d} N={n} dt={dt}: L2 norm grew from {n0:.9g} to {n1:.9g} in step {i + 1}")
+                        if unitary and n % 2 == 1 and abs(n1 - n0) > 20 * _tol() * n0:
+                            raise ModelMismatch(f"{lname} D={d} N={n} (odd grid) dt={dt}: L2 norm changed from {n0:.9g} to {n1:.9g}")
+                        u, n0 = v, n1
+                    out.append(u)
+                return out
+
+            add(f"model:C11:norm[{lname},D={d},N={n}]", _norm, ["exponax.stepper"], f"linear{d}", cost=3 if d == 3 else 2)
+
+    # ------------------------------------------------------------------ C07: derivatives vs central finite differences (float64 session only)
+    def _fd(pool, which):
+        if not jax.config.jax_enable_x64:
+            return "float32 session: finite differences not meaningful"
+        n = 16
+        u = bl_field(1, 1, n) * 0.5
+        t = bl_field(1, 1, n, variant=3) * 0.3
+        out = []
+
+        def check(f, p, name):
+            tang = jnp.ones_like(jnp.asarray(p)) if jnp.ndim(p) == 0 else jnp.ones_like(p)
+            jv = jax.jvp(f, (jnp.asarray(p),), (tang,))[1]
+            h = 1e-6
+            fd = (f(jnp.asarray(p) + h * tang) - f(jnp.asarray(p) - h * tang)) / (2 * h)
+            agree(jv, fd, f"{which}: forward-mode derivative w.r.t. {name} vs central finite differences", 1e5, absolute=1e-7)
+            g = jax.grad(lambda q: jnp.sum(f(q) * t))(jnp.asarray(p))
+            agree(jnp.sum(g * tang), jnp.sum(jv * t), f"{which}: reverse mode vs forward mode (adjoint identity) w.r.t. {name}", 1e3, absolute=1e-10)
+            out.append(jv)
+
+        if which == "Burgers":
+            for order in (1, 2, 4):
+                for nu in (0.05, 0.0):
+                    check(lambda p, order=order: ex.stepper.Burgers(1, _L, n, _DT, diffusivity=p, order=order)(u), nu, f"diffusivity at {nu}, order {order}")
+                check(lambda p, order=order: ex.stepper.Burgers(1, _L, n, _DT, convection_scale=p, order=order)(u), 1.0, f"convection_scale, order {order}")
+                check(lambda p, order=order: ex.stepper.Burgers(1, _L, n, p, order=order)(u), _DT, f"dt, order {order}")
+            check(lambda x: ex.stepper.Burgers(1, _L, n, _DT)(x), u, "the state")
+            check(lambda x: ex.rollout(ex.stepper.Burgers(1, _L, n, _DT), 3)(x), u, "the state through a rollout")
+            check(lambda p: ex.rollout(ex.stepper.Burgers(1, _L, n, _DT, diffusivity=p, order=1), 3)(u), 0.0, "diffusivity at 0 through a rollout, order 1")
+        elif which == "reaction":
+            for order in (1, 2, 3):
+                for r in (0.7, 0.0):
+                    check(lambda p, order=order: ex.stepper.reaction.FisherKPP(1, _L, n, _DT, reactivity=p, order=order)(u + 1.0), r, f"FisherKPP reactivity at {r}, order {order}")
+                    check(lambda p, order=order: ex.stepper.generic.GeneralPolynomialStepper(1, _L, n, _DT, linear_coefficients=(p, 0.0, 0.01), polynomial_coefficients=(0.0, 0.0, -1.0), order=order)(u + 1.0), r, f"zeroth-order linear coefficient at {r}, order {order}")
+        elif which == "linear":
+            check(lambda p: ex.stepper.Advection(1, _L, n, _DT, velocity=p * jnp.ones((1,)))(u), 1.0, "velocity")
+            check(lambda p: ex.stepper.Dispersion(1, _L, n, _DT, dispersivity=p * jnp.ones((1,)))(u), 0.5, "dispersivity")
+            check(lambda p: ex.stepper.generic.GeneralLinearStepper(1, _L, n, _DT, linear_coefficients=(0.0, p, 0.01))(u), -0.3, "a generic coefficient")
+            s = ex.stepper.Diffusion(1, _L, n, _DT)
+            J = jax.jacfwd(s)(u).reshape(n, n)
+            agree(J @ t.reshape(n), s(t).reshape(n), "linear stepper: Jacobian applied to t vs the stepper applied to t", 100)
+            out.append(J)
+        elif which == "KdV-KS":
+            for order in (1, 2, 4):
+                check(lambda p, order=order: ex.stepper.KortewegDeVries(1, _L, n, _DT, dispersivity=p, order=order)(u), 1.0, f"KdV dispersivity, order {order}")
+                check(lambda p, order=order: ex.stepper.KuramotoSivashinsky(1, _L, n, _DT, second_order_scale=p, order=order)(u), 1.0, f"KS second_order_scale, order {order}")
+        return out
+
+    for which in ("Burgers", "reaction", "linear", "KdV-KS"):
+        add(f"model:C07:finite-differences[{which}]", lambda pool, which=which: _fd(pool, which), ["exponax.stepper"], "derivatives", cost=5)
+
+    # ------------------------------------------------------------------ utilities: cheap exact relations (C04, C05, C15, C16, C17)
+    def _util(pool, d, n):
+        out = []
+        u = _field(2, d, n)
+        ub = bl_field(2, d, n)
+        uh = ex.fft(u, num_spatial_dims=d)
+        agree(ex.ifft(uh, num_spatial_dims=d, num_points=n), u, "ifft(fft(u)) vs u", 10)
+        g = np.asarray(ex.make_grid(d, _L, n), dtype=np.float64)
+        agree(g, grid_np(d, _L, n), "make_grid vs j L / N (left-inclusive, right-exclusive)", 4)
+        out.append(uh)
+        return out
+
+    for d, n in ((1, 16), (1, 15), (2, 8), (2, 9), (3, 6), (3, 5)):
+        add(f"model:C04:fft-grid[D={d},N={n}]", lambda pool, d=d, n=n: _util(pool, d, n), ["exponax.fft", "exponax.ifft", "exponax.make_grid"], f"fine{d}", cost=1)
+
+    def _deriv(pool, d, n, L):
+        K = (n - 1) // 2
+        x = grid_np(d, L, n)
+        m = [K, 1, 2][:d]
+        phase = sum(2 * math.pi * m[a] * x[a] / L for a in range(d)) + 0.3
+        u = jnp.asarray(np.sin(phase)[None], dtype=jnp.zeros(()).dtype)
+        out = []
+        for order in (1, 2, 3):
+            got = ex.derivative(u, L, order=order)
+            fn = [np.cos, lambda p: -np.sin(p), lambda p: -np.cos(p)][order - 1]
+            want = np.stack([(2 * math.pi * m[a] / L) ** order * fn(phase) for a in range(d)])[None]
+            agree(got.reshape(want.shape) if got.size == want.size else got, want, f"derivative(order={order}) of sin(k.x) on D={d}, N={n}, L={L} vs analytic partial derivatives", 100)
+            out.append(got)
+        f = jnp.asarray((np.sin(phase) + 0.5)[None], dtype=jnp.zeros(()).dtype)
+        k2 = sum((2 * math.pi * m[a] / L) ** 2 for a in range(d))
+        sol = ex.poisson.Poisson(d, L, n)(f)
+        agree(sol, (np.sin(phase) / k2)[None], "Poisson solver vs the zero-mean field whose Laplacian is minus the zero-mean part of f", 100)
+        out.append(sol)
+        return out
+
+    for d, n in ((1, 16), (1, 15), (2, 8), (2, 9), (3, 6), (3, 5)):
+        for L in (3.0, 1.0):
+            add(f"model:C05:trig-derivative[D={d},N={n},L={L}]", lambda pool, d=d, n=n, L=L: _deriv(pool, d, n, L), ["exponax.derivative", "exponax.poisson"], f"fine{d}", cost=1)
+
+    def _resample(pool, d, n, n2):
+        ub = bl_field(2, d, n)
+        up = ex.map_between_resolutions(ub, n2)
+        x2 = np.indices((n2,) * d).astype(np.float64)
+        want = np.zeros((2,) + (n2,) * d)
+        for ch in range(2):
+            for j, m in enumerate(bl_modes(d, n)):
+                phase = sum(m[a] * x2[a] for a in range(d)) * (2.0 * math.pi / n2)
+                want[ch] += np.cos(phase + 0.3 * j + 0.7 * ch) / (1.0 + 0.5 * j)
+            want[ch] += 0.2 * (ch + 1)
+        agree(up, want, f"map_between_resolutions {n}->{n2} of a band-limited state vs the same function sampled on the finer grid", 40)
+        agree(ex.map_between_resolutions(up, n), ub, f"mapping {n}->{n2}->{n} vs the original", 40)
+        rough = _field(2, d, n)
+        for target in (n2, max(3, n - 3)):
+            agree(jnp.mean(ex.map_between_resolutions(rough, target), axis=tuple(range(1, d + 1))), jnp.mean(rough, axis=tuple(range(1, d + 1))), f"mean after {n}->{target} vs mean before", 40)
+        fi = ex.FourierInterpolator(ub, domain_extent=_L)
+        pts = grid_np(d, _L, n).reshape(d, -1).T[:: max(1, n ** (d - 1))]
+        agree(jax.vmap(fi)(jnp.asarray(pts)), jnp.asarray(np.asarray(ub).reshape(2, -1).T[:: max(1, n ** (d - 1))]), "FourierInterpolator at the state's own grid points vs the state", 100)
+        return up
+
+    for d, n, n2 in ((1, 16, 24), (1, 15, 20), (1, 16, 17), (2, 8, 12), (2, 9, 12), (3, 6, 8)):
+        add(f"model:C15:resample[D={d},{n}->{n2}]", lambda pool, d=d, n=n, n2=n2: _resample(pool, d, n, n2), ["exponax.map_between_resolutions", "exponax.FourierInterpolator"], f"fine{d}", cost=2)
+
+    def _metrics(pool, d, n):
+        m = ex.metrics
+        a, b = _field(2, d, n), _field(2, d, n, 1)
+        out = []
+        for sp_, fo_ in ((m.MSE, m.fourier_MSE), (m.RMSE, m.fourier_RMSE), (m.nMSE, m.fourier_nMSE), (m.nRMSE, m.fourier_nRMSE)):
+            x, y = sp_(a, b, domain_extent=_L), fo_(a, b, domain_extent=_L)
+            agree(y, x, f"{fo_.__name__} vs {sp_.__name__} (Parseval)", 40)
+            out.append(x)
+        agree(m.MSE(a, a, domain_extent=_L), jnp.zeros(()), "MSE(a, a)", 1, absolute=1e-12)
+        agree(m.MSE(b, a, domain_extent=_L), m.MSE(a, b, domain_extent=_L), "MSE symmetry", 4)
+        agree(m.MSE(a, b, domain_extent=2 * _L), (2.0**d) * m.MSE(a, b, domain_extent=_L), "MSE scales with L^D", 10)
+        agree(m.MSE(a, b, domain_extent=_L), m.MSE(a[:1], b[:1], domain_extent=_L) + m.MSE(a[1:], b[1:], domain_extent=_L), "MSE splits additively over channels", 10)
+        agree(m.MSE(3.0 * a, 3.0 * b, domain_extent=_L), 9.0 * m.MSE(a, b, domain_extent=_L), "MSE homogeneity", 10)
+        agree(m.nRMSE(3.0 * a, 3.0 * b, domain_extent=_L), m.nRMSE(a, b, domain_extent=_L), "nRMSE is scale-free", 10)
+        agree(m.correlation(a, 2.5 * a), jnp.ones(()), "correlation(a, 2.5 a)", 10)
+        agree(m.correlation(a, -0.5 * a), -jnp.ones(()), "correlation(a, -0.5 a)", 10)
+        K = n // 2
+        full = m.fourier_MSE(a, b, domain_extent=_L)
+        parts = m.fourier_MSE(a, b, domain_extent=_L, low=0, high=1) + m.fourier_MSE(a, b, domain_extent=_L, low=2, high=K + n)
+        agree(parts, full, "fourier_MSE splits additively over disjoint bands", 40)
+        return out
+
+    for d, n in ((1, 16), (1, 15), (2, 8), (2, 9), (3, 6)):
+        add(f"model:C16:metric-relations[D={d},N={n}]", lambda pool, d=d, n=n: _metrics(pool, d, n), [f"exponax.metrics.{x}" for x in ("MSE", "fourier_MSE", "nRMSE", "correlation")], f"fine{d}", cost=2)
+
+    def _spectrum(pool, d, n):
+        K = (n - 1) // 2
+        x = np.indices((n,) * d).astype(np.float64) * (2 * math.pi / n)
+        out = []
+        for m, amp in (([1, 0, 0][:d], 0.7), ([K, 0, 0][:d], 1.3), ([1, 1, 1][:d], 0.4), ([2, -1, 0][:d], 0.9)):
+            if d == 1 and any(m[1:]):
+                continue
+            phase = sum(m[a] * x[a] for a in range(d)) + 0.4
+            u = jnp.asarray((amp * np.cos(phase))[None], dtype=jnp.zeros(()).dtype)
+            r = math.sqrt(sum(c * c for c in m))
+            b = int(math.floor(r + 0.5))
+            got = ex.get_spectrum(u, power=False)
+            want = np.zeros((1, n // 2 + 1))
+            if b <= n // 2:
+                want[0, b] = amp
+            agree(got, want, f"amplitude spectrum of {amp} cos(k.x), k={m}, D={d}, N={n}: expected {amp} in bin {b}", 40, absolute=40 * _tol())
+            out.append(got)
+        rough = _field(2, d, n)
+        s_sum = ex.get_spectrum(rough, power=True, radial_binning="sum")
+        if d == 1:
+            agree(jnp.sum(s_sum, axis=-1), 0.5 * jnp.mean(rough * rough, axis=-1), "1D: summed power spectrum vs half the mean square (Parseval)", 40)
+        agree(ex.get_spectrum(rough[1:], power=True), s_sum[1:], "channels are treated independently", 10)
+        out.append(s_sum)
+        return out
+
+    for d, n in ((1, 16), (1, 15), (2, 8), (2, 9), (3, 6)):
+        add(f"model:C17:single-modes[D={d},N={n}]", lambda pool, d=d, n=n: _spectrum(pool, d, n), ["exponax.get_spectrum"], f"fine{d}", cost=2)
+
+    # ------------------------------------------------------------------ C18: documented options of the generators
+    def _ic_contract(pool, d):
+        import jax.random as jr
+
+        ic = ex.ic
+        n = {1: 32, 2: 16, 3: 8}[d]
+        out = []
+        axes = tuple(range(1, d + 1))
+        for name, gen, checks in (
+            ("GaussianRandomField(zero_mean, std_one)", ic.GaussianRandomField(d, domain_extent=_L, zero_mean=True, std_one=True), ("mean0", "std1")),
+            ("GaussianRandomField(max_one)", ic.GaussianRandomField(d, domain_extent=_L, max_one=True), ("max1",)),
+            ("DiffusedNoise(zero_mean, std_one)", ic.DiffusedNoise(d, domain_extent=_L, zero_mean=True, std_one=True), ("mean0", "std1")),
+            ("DiffusedNoise(max_one), tiny intensity", ic.DiffusedNoise(d, domain_extent=_L, intensity=1e-6, max_one=True), ("max1",)),
+            ("RandomTruncatedFourierSeries(max_one)", ic.RandomTruncatedFourierSeries(d, cutoff=3, max_one=True), ("max1",)),
+            ("RandomTruncatedFourierSeries(std_one)", ic.RandomTruncatedFourierSeries(d, cutoff=3, std_one=True), ("std1",)),
+            ("DiffusedNoise(std_one), tiny intensity", ic.DiffusedNoise(d, domain_extent=_L, intensity=1e-7, zero_mean=True, std_one=True), ("mean0", "std1")),
+            ("RandomDiscontinuities(zero_mean, std_one)", ic.RandomDiscontinuities(d, domain_extent=_L, zero_mean=True, std_one=True), ("mean0", "std1")),
+            ("ClampingICGenerator", ic.ClampingICGenerator(ic.RandomTruncatedFourierSeries(d, cutoff=3), limits=(-0.5, 2.0)), ("clamp",)),
+            ("ScaledICGenerator", ic.ScaledICGenerator(ic.RandomTruncatedFourierSeries(d, cutoff=3, max_one=True), 3.0), ("max3",)),
+        ):
+            for seed in (0, 5):
+                u = gen(n, key=jr.PRNGKey(seed))
+                if tuple(u.shape) != (1,) + (n,) * d:
+                    raise ModelMismatch(f"{name}: shape {u.shape}")
+                if not bool(jnp.all(jnp.isfinite(u))):
+                    raise ModelMismatch(f"{name}: not finite")
+                agree(gen(n, key=jr.PRNGKey(seed)), u, f"{name}: the same key twice", 0.0)
+                tol = 50 * _tol()
+                if "mean0" in checks:
+                    agree(jnp.mean(u, axis=axes), jnp.zeros((1,)), f"{name}: zero mean", 1, absolute=tol * float(jnp.max(jnp.abs(u))))
+                if "std1" in checks:
+                    agree(jnp.std(u, axis=axes), jnp.ones((1,)), f"{name}: unit standard deviation", 50)
+                if "max1" in checks:
+                    agree(jnp.max(jnp.abs(u), axis=axes), jnp.ones((1,)), f"{name}: unit maximum", 50)
+                if "max3" in checks:
+                    agree(jnp.max(jnp.abs(u), axis=axes), 3.0 * jnp.ones((1,)), f"{name}: scale factor", 50)
+                if "clamp" in checks:
+                    agree(jnp.stack([jnp.min(u), jnp.max(u)]), jnp.asarray([-0.5, 2.0]), f"{name}: clamping limits reached at both ends", 50)
+                out.append(u)
+        for lo, hi in ((0.5, 0.5), (0.5, 1.5), (-2.0, -1.0)):
+            u = ic.RandomTruncatedFourierSeries(d, cutoff=3, offset_range=(lo, hi))(n, key=jr.PRNGKey(4))
+            mean = float(jnp.mean(u))
+            if not (lo - 50 * _tol() <= mean <= hi + 50 * _tol()):
+                raise ModelMismatch(f"RandomTruncatedFourierSeries(offset_range=({lo}, {hi})): mean of the state is {mean:.6g}, outside the requested offset range")
+            out.append(u)
+        mc = ic.RandomMultiChannelICGenerator((ic.RandomTruncatedFourierSeries(d, cutoff=2), ic.GaussianRandomField(d, domain_extent=_L), ic.WhiteNoise(d)))
+        u = mc(n, key=jr.PRNGKey(1))
+        if tuple(u.shape) != (3,) + (n,) * d:
+            raise ModelMismatch(f"RandomMultiChannelICGenerator: shape {u.shape}, expected one channel per sub-generator")
+        cut = ic.RandomTruncatedFourierSeries(d, cutoff=2)(n, key=jr.PRNGKey(2))
+        ch = np.asarray(ex.fft(cut, num_spatial_dims=d))
+        k = np.asarray(ex.spectral.build_wavenumbers(d, n))
+        outside = np.max(np.abs(k), axis=0, keepdims=True) > 2
+        agree(ch * outside, np.zeros_like(ch), "RandomTruncatedFourierSeries: Fourier content confined to the cutoff", 1, absolute=50 * _tol() * float(np.max(np.abs(ch))))
+        g = ic.RandomGaussianBlobs(d, domain_extent=_L, num_blobs=2)
+        agree(g.gen_ic_fun(key=jr.PRNGKey(3))(ex.make_grid(d, _L, n)), g(n, key=jr.PRNGKey(3)), "function form vs sampled form of the same draw", 20)
+        out.append(u)
+        return out
+
+    for d in (1, 2, 3):
+        add(f"model:C18:contract[D={d}]", lambda pool, d=d: _ic_contract(pool, d), ["exponax.ic.GaussianRandomField", "exponax.ic.DiffusedNoise", "exponax.ic.RandomTruncatedFourierSeries"], f"ic{d}", cost=4)
+
+
+def add_model_ops_3(cat, Op):
+    """C02: the ETDRK integrators realise the order-p scheme -- for real *and* complex linear symbols."""
+    import jax
+    import jax.numpy as jnp
+
+    import exponax as ex
+
+    def add(key, fn, exports, group, cost=2, atomic=False):
+        cat.add(Op(key, fn, tuple(exports), group, cost=cost, atomic=atomic))
+
+    symbols = {
+        "real(diffusive)": lambda dop: 0.03 * dop**2,
+        "complex(advective)": lambda dop: -0.8 * dop + 0.01 * dop**2,
+        "complex(dispersive)": lambda dop: 0.05 * dop**3,
+        "imaginary(dispersive,no-damping)": lambda dop: -0.4 * dop + 0.02 * dop**3,
+    }
+
+    def _reference(lin, nl, uh, T, steps):
+        # independent integrator: classical RK4 on the integrating-factor form v = exp(-L t) u_hat of the same
+        # semi-discrete system, with a step far below anything the ETDRK runs use
+        h = T / steps
+
+        def rhs(t, v):
+            return jnp.exp(-lin * t) * nl(jnp.exp(lin * t) * v)
+
+        def body(v, i):
+            t = i * h
+            k1 = rhs(t, v)
+            k2 = rhs(t + h / 2, v + h / 2 * k1)
+            k3 = rhs(t + h / 2, v + h / 2 * k2)
+            k4 = rhs(t + h, v + h * k3)
+            return v + h / 6 * (k1 + 2 * k2 + 2 * k3 + k4), None
+
+        v, _ = jax.lax.scan(body, uh, jnp.arange(steps))
+        return jnp.exp(lin * T) * v
+
+    for sname, mk_lin in symbols.items():
+
+        def _order(pool, mk_lin=mk_lin, sname=sname):
+            if not jax.config.jax_enable_x64:
+                return "float32 session: convergence orders are not resolvable"
+            n, L, T = 32, 2 * math.pi, 0.4
+            dop = ex.spectral.build_derivative_operator(1, L, n)
+            lin = mk_lin(dop)
+            nl = ex.nonlin_fun.ConvectionNonlinearFun(1, n, derivative_operator=dop, dealiasing_fraction=2 / 3)
+            x = np.arange(n) * L / n
+            uh = ex.fft(jnp.asarray((np.sin(x) + 0.5 * np.cos(2 * x + 0.3))[None]), num_spatial_dims=1)
+            ref = jax.jit(lambda u: _reference(lin, nl, u, T, 8000))(uh)
+            out = [ref]
+            agree(ex.etdrk.ETDRK0(T, lin).step_fourier(uh), jnp.exp(lin * T) * uh, "ETDRK0 vs pure linear propagation", 10)
+            for p, cls in ((1, ex.etdrk.ETDRK1), (2, ex.etdrk.ETDRK2), (3, ex.etdrk.ETDRK3), (4, ex.etdrk.ETDRK4)):
+                errs = []
+                for steps in (8, 16, 32):
+                    integ = cls(T / steps, lin, nl)
+                    got = ex.repeat(integ.step_fourier, steps)(uh)
+                    errs.append(float(jnp.max(jnp.abs(got - ref))) / float(jnp.max(jnp.abs(ref))))
+                    out.append(got)
+                rates = [math.log2(errs[i] / errs[i + 1]) for i in range(2) if errs[i + 1] > 1e-11]
+                if rates and min(rates) < p - 0.5:
+                    raise ModelMismatch(f"ETDRK{p} with a {sname} symbol: errors {['%.2e' % e for e in errs]} under dt-halving give observed orders {['%.2f' % r for r in rates]}, expected {p}")
+            return out
+
+        add(f"model:C02:convergence-order[{sname}]", _order, [f"exponax.etdrk.ETDRK{p}" for p in range(5)], "etdrk", cost=5, atomic=True)
+
+    def _kdv_order(pool):
+        if not jax.config.jax_enable_x64:
+            return "float32 session: convergence orders are not resolvable"
+        n, L, T = 32, 2 * math.pi, 0.05
+        x = np.arange(n) * L / n
+        u0 = jnp.asarray((np.sin(x) + 0.5 * np.cos(2 * x))[None])
+        out = []
+        for name, mk in (
+            ("KortewegDeVries", lambda dt, p: ex.stepper.KortewegDeVries(1, L, n, dt, order=p)),
+            ("Burgers", lambda dt, p: ex.stepper.Burgers(1, L, n, dt, order=p)),
+            ("GeneralConvectionStepper(advection+diffusion)", lambda dt, p: ex.stepper.generic.GeneralConvectionStepper(1, L, n, dt, linear_coefficients=(0.0, -0.7, 0.02), order=p)),
+        ):
+            errs = {}
+            for p in (1, 2, 3, 4):
+                errs[p] = [ex.repeat(mk(T / steps, p), steps)(u0) for steps in (10, 20, 40)]
+            # orders are judged against each other: consecutive refinements of one order must contract like 2^p
+            for p in (1, 2, 3):
+                d1 = float(jnp.max(jnp.abs(errs[p][0] - errs[p][1])))
+                d2 = float(jnp.max(jnp.abs(errs[p][1] - errs[p][2])))
+                if d2 > 1e-11 and math.log2(d1 / d2) < p - 0.5:
+                    raise ModelMismatch(f"{name} order {p}: successive dt-halvings contract by 2^{math.log2(d1 / d2):.2f}, expected 2^{p}")
+            # and the orders must agree with each other increasingly well
+            gap12 = float(jnp.max(jnp.abs(errs[2][2] - errs[4][2])))
+            gap11 = float(jnp.max(jnp.abs(errs[1][2] - errs[4][2])))
+            if gap11 > 1e-9 and gap12 > 0.2 * gap11:
+                raise ModelMismatch(f"{name}: order 2 is not closer to order 4 than order 1 is ({gap12:.2e} vs {gap11:.2e}) -- higher orders do not gain accuracy")
+            out.append(errs[4][2])
+        return out
+
+    add("model:C02:stepper-orders[KdV,Burgers,GeneralConvection]", _kdv_order, ["exponax.stepper.KortewegDeVries", "exponax.stepper.Burgers"], "etdrk", cost=5, atomic=True)
+
+    # ------------------------------------------------------------------ C04: the indexing option
+    def _xy(pool, d, n):
+        out = []
+        for indexing in ("ij", "xy"):
+            g = ex.make_grid(d, _L, n, indexing=indexing)
+            k = ex.spectral.build_wavenumbers(d, n, indexing=indexing)
+            u = jnp.sin(2 * math.pi * g[0] / _L) + jnp.cos(4 * math.pi * g[-1] / _L)
+            uh = ex.fft(u[None], num_spatial_dims=d)
+            if tuple(k.shape[1:]) != tuple(uh.shape[1:]):
+                raise ModelMismatch(f"indexing={indexing!r}: wavenumbers have shape {tuple(k.shape)} but the transform of a grid function has shape {tuple(uh.shape)} -- they do not fit together")
+            out += [g, k]
+        return out
+
+    for d, n in ((2, 8), (2, 9), (3, 6)):
+        add(f"model:C04:indexing-fits[D={d},N={n}]", lambda pool, d=d, n=n: _xy(pool, d, n), ["exponax.make_grid", "exponax.spectral"], f"fine{d}", cost=1)
